@@ -2,8 +2,11 @@
 """Regenerates MANIFEST.json from checks/registry.py + checks/manifest_text.py."""
 import json, sys
 sys.path.insert(0, '/verif/checks')
-from registry import PROPS
-from manifest_text import TEXT, NOT_YET
+from common import load_props
+MODS = load_props()
+PROPS = {k: m.CFG for k, m in MODS.items()}
+TEXT = {k: m.MANIFEST for k, m in MODS.items() if hasattr(m, 'MANIFEST')}
+NOT_YET = {}
 props = [json.loads(l) for l in open('/verif/properties.jsonl')]
 checks = []
 na = []
